@@ -30,10 +30,12 @@ Lemma single_inv : forall T T' st st' w (new : option einfo),
   (forall w0, w0 <> w -> lookup w0 (t_eps T') = lookup w0 (t_eps T) /\ lookup w0 (t_conn T') = lookup w0 (t_conn T)) ->
   entry_abs new = (lookup w (t_eps T'), lookup w (t_conn T')) ->
   (forall j w0 c s, In (j, (w0, c, s)) (closed st') -> In (j, (w0, c, s)) (closed st) \/
-       (forall ms, lin (groups s) ms -> snd (apply_checked w0 cinit ms) = true)) ->
-  WFT T' -> Inv T' st'.
+       ((forall ms, lin (groups s) ms -> snd (apply_checked w0 cinit ms) = true) /\ cfree T' j)) ->
+  WFT T' -> WFC T' -> t_njoins T <= t_njoins T' ->
+  (lookup w (t_conn T') = lookup w (t_conn T) \/ lookup w (t_conn T') = None \/ exists u, lookup w (t_conn T') = Some (t_njoins T, u)) ->
+  Inv T' st'.
 Proof.
-  intros T T' st st' w new I HE HL P1 P2 P3 P4 P5 P6 Q1 Q2 Q3 Q4 Q5 Q6 NJ HT HW HC W.
+  intros T T' st st' w new I HE HL P1 P2 P3 P4 P5 P6 Q1 Q2 Q3 Q4 Q5 Q6 NJ HT HW HC W WC NJ2 HWc.
   constructor; try assumption; try (rewrite ?P1, ?P2, ?P3, ?P4, ?P5, ?P6, ?Q1, ?Q2, ?Q3, ?Q4, ?Q5, ?Q6; apply I).
   - intro w0. unfold absw. rewrite HE. destruct (Nat.eqb_spec w0 w) as [->|N].
     + rewrite <- HW. destruct new as [ei'|]; [rewrite lookup_insert|rewrite lookup_remove]; rewrite Nat.eqb_refl; reflexivity.
@@ -44,7 +46,12 @@ Proof.
     assert (X : (exists ei', new = Some ei' /\ w0 = w /\ ei = ei') \/ In (w0, ei) (eps st)).
     { destruct new as [ei'|]; [destruct H as [H|H]; [inversion H; subst; left; exists ei; auto|]|]; right; apply in_remove in H; apply H. }
     destruct X as [(ei' & A & -> & ->)|X]; apply (live_ok_same_tables st st'); try assumption; [apply HL; exact A|apply (i_live _ _ I _ _ X)].
-  - intros j w0 c s H. destruct (HC j w0 c s H) as [X|X]; [apply (i_closed _ _ I j w0 c s X)|exact X].
+  - intros j w0 c s H. destruct (HC j w0 c s H) as [X|X]; [apply (i_closed _ _ I j w0 c s X)|apply X].
+  - intros j w0 c s H. destruct (HC j w0 c s H) as [X|X]; [|apply X].
+    destruct (i_cidx _ _ I j w0 c s X) as [C1 C2]. split; [lia|]. intros w' u L.
+    destruct (Nat.eqb_spec w' w) as [->|N].
+    + destruct HWc as [E|[E|[u1 E]]]; rewrite E in L; [apply (C2 _ _ L)|discriminate|inversion L; lia].
+    + destruct (HT w' N) as [_ B]. rewrite B in L. apply (C2 _ _ L).
 Qed.
 
 Lemma abs_lookup : forall T st w, Inv T st -> entry_abs (lookup w (eps st)) = (lookup w (t_eps T), lookup w (t_conn T)).
@@ -60,13 +67,14 @@ Qed.
 Lemma step_leave : forall T st w uid, Inv T st -> valid_op T (OLeave w uid) = true -> step_ok T st (OLeave w uid).
 Proof.
   intros T st w uid I V. unfold step_ok. assert (W := wft_step T _ (i_wft _ _ I) V).
+  assert (WC := wfc_step T (OLeave w uid) (i_wfc _ _ I)).
   cbn [valid_op] in V. apply negb_true_iff, Nat.eqb_neq in V.
   assert (A := abs_lookup T st w I). cbn [step]. unfold handle_leave. cbn [tstep] in *.
   destruct (lookup w (eps st)) as [ei|] eqn:LW; cbn [entry_abs] in A.
   - assert (H := lookup_in _ _ _ _ LW). assert (L := i_live _ _ I _ _ H). inversion A as [[A1 A2]]. clear A.
     destruct (Nat.eqb_spec (e_uid ei) uid) as [EU|EU].
     + unfold live_ok in L. unfold conn_of in *. destruct (e_out ei) as [[j s]|] eqn:O; [|congruence].
-      rewrite <- A2 in *. cbv beta iota in W |- *. rewrite EU in *. rewrite Nat.eqb_refl in *.
+      rewrite <- A2 in *. cbv beta iota in W, WC |- *. rewrite EU in *. rewrite Nat.eqb_refl in *.
       eexists. split; [reflexivity|].
       eapply (single_inv T _ st _ w (match e_upd ei with None => None | Some _ => Some (mkE None 0 (e_upd ei) (e_spol ei) (e_sprof ei) (e_sips ei)) end) I);
         try reflexivity; try (tbl I); try exact W.
@@ -75,7 +83,11 @@ Proof.
       * intros w0 N. cbn [t_eps t_conn]. rewrite lookup_remove. destruct (Nat.eqb_spec w0 w); [congruence|split; reflexivity].
       * cbn [t_eps t_conn]. rewrite lookup_remove, Nat.eqb_refl, <- A1. destruct (e_upd ei); reflexivity.
       * intros j0 w0 c s0 Hc. cbn [closed] in Hc. apply archive_in in Hc. destruct Hc as [Hc|[-> Hc]]; [left; exact Hc|right].
-        rewrite O in Hc. inversion Hc; subst. apply (live_checked st w ei j0 s0); [unfold live_ok; rewrite O; exact L|exact O].
+        rewrite O in Hc. inversion Hc; subst. split; [apply (live_checked st w ei j0 s0); [unfold live_ok; rewrite O; exact L|exact O]|].
+        eapply (cfree_archived T w j0 _ (t_njoins T) (remove w (t_conn T)) None (i_wfc _ _ I)); [symmetry; exact A2|apply le_n| |left; reflexivity].
+        intro w'. rewrite lookup_remove. reflexivity.
+      * exact WC.
+      * right. left. cbn [t_conn]. rewrite lookup_remove, Nat.eqb_refl. reflexivity.
     + assert (TT : (match conn_of ei with
                     | Some (_, u) => if u =? uid then mkT (t_eps T) (t_pols T) (t_profs T) (t_ips T) (t_sas T) (t_nss T) (t_insync T) (remove w (t_conn T)) (t_njoins T) else T
                     | None => T end) = T).
@@ -91,5 +103,7 @@ Proof.
       * cbn [entry_abs]. rewrite <- A1, <- A2. unfold conn_of. rewrite O. reflexivity.
       * intros j0 w0 c s0 Hc. left. exact Hc.
       * apply (i_wft _ _ I).
+      * apply (i_wfc _ _ I).
+      * left. reflexivity.
   - inversion A as [[A1 A2]]. rewrite <- A2 in *. eexists. split; [reflexivity|exact I].
 Qed.
